@@ -57,7 +57,7 @@ CLAIMS = {
          "§6 C03, §7 D1", "Lean 4 proof (order preserved by every pricing function; composition) + differential correspondence on cw-multi-test"),
  "C07": ("Lean theorems over the world model, for every operation kind: frame (no account outside Touched changes any balance), allowance frame (bystanders' allowances are never consumed), "
          "conservation of native coins and of cw20 tokens relative to their supply over any duplicate-free account list containing the touched accounts, supply of non-LP tokens changes only by a holder's own burn, "
-         "LP supply changes exactly by the minted share (plus the reserved unit) on provision and by the burned amount on withdrawal; an account that is not the actor, a pair or the router — in particular the designated receiver — never loses anything (receiver_never_loses). Proved once through an inductive `Moves` relation over ledger primitives. "
+         "LP supply changes exactly by the minted share (plus the reserved unit) on provision and by the burned amount on withdrawal; an account that is not the actor, a pair or the router — in particular the designated receiver — never loses anything (receiver_never_loses). Proved once through an inductive `Moves` relation over ledger primitives; the operation universe includes third parties acting through cw20 allowances (TransferFrom / SendFrom / BurnFrom / DecreaseAllowance). "
          "Correspondence + oracle: the full ledger is diffed around every step of the world families against the permitted set.",
          "§6 C07", "Lean 4 proof (frame + conservation by induction over ledger primitives) + differential correspondence on cw-multi-test"),
  "C13": ("Lean theorems: exact meaning of the route-shape check (the asks produced and never consumed later; accepted iff exactly one), empty and two-output routes rejected; every hop spends the router's whole balance of its offer asset and leaves none; "
